@@ -5,7 +5,7 @@
 using namespace nix;
 using namespace vh;
 
-#define N_VICTIMS 21
+#define N_VICTIMS 22
 
 extern "C" void vh_c04_delete() {
     nixsym_declare_reach("checked");
@@ -38,9 +38,12 @@ extern "C" void vh_c04_delete() {
     case 18: DEL3(w.tag_u, w.b, deleteTag, UUID_NAME); break;
     case 19: DEL3(w.da_u, w.b, deleteDataArray, UUID_NAME); break;
     case 20: DEL3(w.src_leaf, w.src_child2, deleteSource, "leaf"); break;
+    case 21: DEL3(w.sec_grand, w.sec_child, deleteSection, "grand"); break;
     }
     nixsym_assert(ok, "delete reports success");
     nixsym_assert(!valid_after, "handle to the deleted entity reports itself invalid");
+    if (v == 12 || v == 14) nixsym_assert(!w.sec_grand.isValidEntity() && (v == 14 || !w.sec_child.isValidEntity()), "handles into the deleted section subtree report themselves invalid");
+    if (v == 9) nixsym_assert(!w.src_child.isValidEntity() && !w.src_child2.isValidEntity() && !w.src_leaf.isValidEntity(), "handles into the deleted source subtree report themselves invalid");
     // deleted set: the victim and what is contained in it
     std::set<std::string> D; D.insert(vid);
     for (auto &x : before[vid].subtree) D.insert(x);
